@@ -299,6 +299,14 @@ fn run(ctx: &Ctx, env: &Env) -> Stats {
                             }
                         }
                     }
+                    // extreme seek targets (around 2^63 and at the top of the u64 range): accepted exactly by the
+                    // zero-extended reader, rejected without moving the cursor by the others; no read at the extreme
+                    // position itself (the cursor increment would overflow there, D10)
+                    for x in [(1u64 << 63) - 1, 1 << 63, (1 << 63) + 1, u64::MAX - 1, u64::MAX] {
+                        for owned in [true, false] {
+                            part.check(&Case { kind, w, owned, init: init.clone(), ops: vec![Op::Read, Op::Seek(x), Op::Pos, Op::Len, Op::Seek(1), Op::Pos, Op::Read, Op::Pos] }, &f);
+                        }
+                    }
                     // far seeks (D10)
                     for far in [2u64, 5, 1 << 40, 1 << 62] {
                         for tail in [Op::Read, Op::Pos, Op::Seek(0), Op::Len] {
